@@ -96,6 +96,9 @@ mod pathset;
 pub(crate) mod reliability;
 /// Path fetcher traits and types.
 pub mod traits;
+/// Verification hooks: manually stepped path set (feature `verif-hooks`).
+#[cfg(feature = "verif-hooks")]
+pub mod verif;
 
 /// Configuration for the `MultiPathManager`.
 #[derive(Debug, Clone, Copy)]
